@@ -886,6 +886,13 @@ def run(ctx: Context, rep) -> None:
     check_stateless(ctx, rep, "C02.stateless")
     check_walk(ctx, rep, "C02.walk")
     check_batch(ctx, rep, "C02.batch")
+    # the shuffled concurrent path goes through the lazy pool: its hand-over
+    # protocol (C13) is a necessary condition for "none missing, none
+    # duplicated, for every thread timing"
+    from sa.rules import c13
+    c13.check_sentinel(ctx, rep, "C02.pool-sentinel")
+    c13.check_owner(ctx, rep, "C02.pool-owner")
+    c13.check_consumer(ctx, rep, "C02.pool-consumer")
     rustrules.check_rotation(ctx, rep, "C02.rust-dispatch")
     rustrules.check_cursor(ctx, rep, "C02.rust-cursor")
 
